@@ -3,12 +3,12 @@ package drpcserver
 import (
 	"context"
 
+	"io"
 	"storj.io/drpc"
-	"storj.io/drpc/drpcmanager"
-	"storj.io/drpc/drpcmetadata"
 	"storj.io/drpc/drpcconn"
 	"storj.io/drpc/drpcerr"
-	"io"
+	"storj.io/drpc/drpcmanager"
+	"storj.io/drpc/drpcmetadata"
 
 	vrt "storj.io/drpc/internal/verifrt"
 	"storj.io/drpc/internal/verifrt/hx"
@@ -142,7 +142,6 @@ func VerifH_EndToEndUnary() {
 	vrt.Assert(vrt.Unfinished() == 0, "no goroutine is left on either side")
 	vrt.Cover("e2e-end")
 }
-
 
 // streamHandler: mode 0 echoes every message until the client half-closes; mode 1 reads
 // one message and returns nil; mode 2 reads one message and fails; mode 3 blocks in a
